@@ -41,10 +41,10 @@ var ErrCrashed = errors.New("simfs: process was killed")
 
 // Plan is the fault plan of one execution.
 type Plan struct {
-	CrashAt int           // crash immediately before the call with this number (mutating calls only are numbered); -1 none
-	ErrAt   int           // inject Errno into this mutating call; -1 none
+	CrashAt int // crash immediately before the call with this number (mutating calls only are numbered); -1 none
+	ErrAt   int // inject Errno into this mutating call; -1 none
 	Errno   syscall.Errno
-	ShortAt int           // make this Write call short (writes half, returns io.ErrShortWrite); -1 none
+	ShortAt int // make this Write call short (writes half, returns io.ErrShortWrite); -1 none
 }
 
 var (
